@@ -18,4 +18,5 @@ pub mod stubs;
 mod c03;
 mod c05;
 mod c11;
+mod c14;
 mod c20;
